@@ -596,6 +596,85 @@ example : let st := st1.run [.connect pS, .partialRx pS 23]
 /-- the idle limit is that of `coap_endpoint_get_session` (datagram endpoints): accepting a connection evicts nothing -/
 example : (st1.run [.setMaxIdle 1, .connect pS, .connect ⟨51, 2, COAP_PROTO_TCP⟩]).events = [.new 10, .new 11] := by decide
 
+/-! ### Confirmables of a session: the delay queue (NSTART) and the replies that end an exchange (seeds C12-10, C12-12) -/
+
+/-- ANY reply that matches the Confirmable a session has outstanding ends the exchange in the same way: an empty ACK, an
+ACK that coap_dispatch classifies as a bad packet (request code in an ACK, invalid code class) and a Reset leave the SAME
+state — the node is unlinked, the NSTART slot is given back, a Confirmable waiting in the delay queue is sent, and the
+node, its PDU and its session reference are released (`coap_delete_node_lkd(sent)` at `cleanup:` is unconditional). -/
+theorem any_reply_ends_exchange (st : St) (p : Peer) (bad : Bool) :
+    (st.step (.ack p bad)).1 = (st.step (.rst p)).1 := by
+  unfold St.step
+  split
+  · rfl
+  · dsimp only
+    split
+    · rfl
+    · split <;> rfl
+
+/-- a Confirmable that has to wait for its NSTART slot (`coap_session_delay_pdu(session, pdu, NULL)`) takes NO reference:
+holders and every reference count are unchanged; the new node hangs off the session (it is in `partials`, so by
+`partial_pdu_hangs_off_live_session` its session is live and by `reclaim_releases_partial_pdu` / `teardown_state_empty`
+it is released with it), and the session is not idle any more (`delayqueue != NULL`). -/
+theorem delayed_send_takes_no_reference (st : St) (p : Peer) (s : Sess) (hf : st.freed = false) (hl : st.lookup p = some s)
+    (hr : s.peer.reliable = false) (hc : s.conActive ≥ NSTART) :
+    (st.step (.sendCon p)).1.holders = st.holders ∧
+    (st.step (.sendCon p)).1.sessions.map (fun t => (t.sid, t.ref)) = st.sessions.map (fun t => (t.sid, t.ref)) ∧
+    (st.step (.sendCon p)).1.partials = st.partials ++ [(st.next, s.sid)] := by
+  unfold St.step
+  simp only [hf, Bool.false_eq_true, if_false, hl, hr, hc, if_true]
+  refine ⟨rfl, ?_, rfl⟩
+  simp only [St.addPartial, St.updSess, List.map_map]
+  apply List.map_congr_left
+  intro t _
+  by_cases e : t.sid = s.sid <;> simp [e]
+
+/-- when the delayed Confirmable gets its slot (`coap_session_connected` → `coap_wait_ack`) the SAME node (no allocation,
+no free) becomes a queued message and takes exactly one reference on its session: the holders grow by that node, the
+session's holder count grows by one, the ledger is unchanged.  (That the reference COUNT grows with it is
+`ref_eq_holders`, which holds in every reachable state of the extended alphabet.) -/
+theorem flush_takes_reference (st : St) (x : Nat × Nat) (due : Nat) (hx : x ∈ st.partials) :
+    (st.promote x due).holders = st.holders ++ [⟨x.1, x.2, .node 0 due⟩] ∧
+    (st.promote x due).holds x.2 = st.holds x.2 + 1 ∧
+    (∀ y, y ≠ x.2 → (st.promote x due).holds y = st.holds y) ∧
+    (st.promote x due).ledger = st.ledger ∧ (st.promote x due).partials = st.partials.erase x := by
+  unfold St.promote
+  rw [if_pos hx]
+  refine ⟨rfl, ?_, ?_, rfl, rfl⟩
+  · unfold St.holds; simp [List.countP_append]
+  · intro y hy
+    unfold St.holds
+    have : ¬ x.2 = y := fun e => hy e.symm
+    simp [List.countP_append, this]
+
+/-- two separate Confirmables back to back: the second waits (no reference), the ACK of the first — also a BAD one — sends
+and queues it (one reference: node 10 is the same object), its own ACK releases everything; the session is then idle and
+is reclaimed after the session timeout; the ledger is clean after teardown -/
+example : let st := st0.run [.rx pA .plain, .sendCon pA, .sendCon pA]
+    st.sessions.map (fun s => (s.ref, s.conActive, s.delayq)) = [(1, 1, 1)] ∧ st.partials = [(10, 8)] ∧
+      st.holders.map (fun h => (h.hid, h.kind)) = [(9, .node 0 3000)] := by decide
+example : let st := st0.run [.rx pA .plain, .sendCon pA, .sendCon pA, .ack pA true]
+    st.sessions.map (fun s => (s.ref, s.conActive, s.delayq)) = [(1, 1, 0)] ∧ st.partials = [] ∧
+      st.holders.map (fun h => (h.hid, h.kind)) = [(10, .node 0 3000)] ∧ st.ledger.drop 7 = [.alloc 8, .alloc 9, .alloc 10, .free 9] := by
+  decide
+example : let st := st0.run [.rx pA .plain, .sendCon pA, .sendCon pA, .ack pA true, .ack pA false, .advance 300000, .io]
+    st.events = [.new 8, .del 8] ∧ st.holders = [] ∧ st.partials = [] := by decide
+example : let st := st0.run [.rx pA .plain, .appRef pA, .sendCon pA, .sendCon pA, .ack pA false, .rst pA]
+    st.sessions.map (fun s => (s.ref, s.conActive, s.delayq)) = [(1, 0, 0)] ∧ st.holders.map (·.kind) = [.app] := by decide
+/-- teardown / disconnect with a Confirmable still waiting in the delay queue: released with the session -/
+example : let st := st0.run [.rx pA .plain, .sendCon pA, .sendCon pA, .sendCon pA, .freeContext]
+    ledgerOk st.ledger = true ∧ st.partials = [] ∧ st.events = [.new 8, .del 8] := by decide
+example : let st := st0.run [.rx pA .plain, .sendCon pA, .sendCon pA, .disconnect pA]
+    st.sessions.map (fun s => (s.ref, s.conActive, s.delayq)) = [(0, 0, 0)] ∧ st.partials = [] ∧ st.holders = [] := by decide
+/-- a session with a delayed Confirmable is not idle: it survives the session timeout although nothing refers to it
+(the first Confirmable is given up after 4 retransmissions at 1000 + 62000; that flushes the second one) -/
+example : let st := st0.run [.setTimeout 1, .rx pA .plain, .sendCon pA, .sendCon pA, .advance 2000, .io, .advance 4000, .io]
+    st.events = [.new 8] ∧ st.sessions.map (·.delayq) = [1] := by decide
+/-- the hypotheses of `delayed_send_takes_no_reference` and `flush_takes_reference` are satisfiable -/
+example : let st := st0.run [.rx pA .plain, .sendCon pA]
+    (st.lookup pA).map (fun s => (s.peer.reliable, decide (s.conActive ≥ NSTART))) = some (false, true) := by decide
+example : (10, 8) ∈ (st0.run [.rx pA .plain, .sendCon pA, .sendCon pA]).partials := by decide
+
 /-- the monitor rejects a double free, a free of something unallocated and a leak -/
 example : ledgerOk [.alloc 1, .free 1, .free 1] = false ∧ ledgerOk [.free 7] = false ∧ ledgerOk [.alloc 1] = false ∧
     ledgerOk [.alloc 1, .alloc 2, .free 2, .free 1] = true := by decide
